@@ -7583,7 +7583,14 @@ void SoPlexBase<R>::_addColReal(R obj, R lower, const SVectorBase<R>& lpcol, R u
    if(_isRealLPLoaded)
       _hasBasis = (_solver.basis().status() > SPxBasisBase<R>::NO_PROBLEM);
    else if(_hasBasis)
-      _basisStatusRows.append(SPxSolverBase<R>::BASIC);
+   {
+      if(lower > -realParam(SoPlexBase<R>::INFTY))
+         _basisStatusCols.append(SPxSolverBase<R>::ON_LOWER);
+      else if(upper < realParam(SoPlexBase<R>::INFTY))
+         _basisStatusCols.append(SPxSolverBase<R>::ON_UPPER);
+      else
+         _basisStatusCols.append(SPxSolverBase<R>::ZERO);
+   }
 
    _rationalLUSolver.clear();
 }
@@ -8017,7 +8024,7 @@ void SoPlexBase<R>::_changeElementReal(int i, int j, const R& val)
    }
    else if(_hasBasis)
    {
-      if(_basisStatusRows[i] != SPxSolverBase<R>::BASIC && _basisStatusCols[i] == SPxSolverBase<R>::BASIC)
+      if(_basisStatusRows[i] != SPxSolverBase<R>::BASIC && _basisStatusCols[j] == SPxSolverBase<R>::BASIC)
          _hasBasis = false;
    }
 
@@ -8070,14 +8077,17 @@ void SoPlexBase<R>::_removeRowsReal(int perm[])
    }
    else if(_hasBasis)
    {
-      for(int i = numRows() - 1; i >= 0 && _hasBasis; i--)
+      // perm refers to the old numbering; survivors keep their order and move to smaller indices
+      const int oldNumRows = _basisStatusRows.size();
+
+      for(int i = 0; i < oldNumRows && _hasBasis; i++)
       {
          if(perm[i] < 0 && _basisStatusRows[i] != SPxSolverBase<R>::BASIC)
             _hasBasis = false;
          else if(perm[i] >= 0 && perm[i] != i)
          {
+            assert(perm[i] < i);
             assert(perm[i] < numRows());
-            assert(perm[perm[i]] < 0);
 
             _basisStatusRows[perm[i]] = _basisStatusRows[i];
          }
@@ -8136,14 +8146,17 @@ void SoPlexBase<R>::_removeColsReal(int perm[])
    }
    else if(_hasBasis)
    {
-      for(int i = numCols() - 1; i >= 0 && _hasBasis; i--)
+      // perm refers to the old numbering; survivors keep their order and move to smaller indices
+      const int oldNumCols = _basisStatusCols.size();
+
+      for(int i = 0; i < oldNumCols && _hasBasis; i++)
       {
          if(perm[i] < 0 && _basisStatusCols[i] == SPxSolverBase<R>::BASIC)
             _hasBasis = false;
          else if(perm[i] >= 0 && perm[i] != i)
          {
+            assert(perm[i] < i);
             assert(perm[i] < numCols());
-            assert(perm[perm[i]] < 0);
 
             _basisStatusCols[perm[i]] = _basisStatusCols[i];
          }
